@@ -1,7 +1,11 @@
 #!/bin/sh
 # usage: try_mutant.sh <patch.diff> <property ids...>   applies the patch to /repo, runs the quick checks, reverts.
-P=$1; shift
+# Evidence and replays written while the patch is applied are kept aside (work/mutant/), never in evidence/.
+P=$(realpath "$1"); shift
 cd /verif
-git -C /repo apply "$(realpath "$P")" || exit 2
+rm -rf work/evidence.keep && cp -r evidence work/evidence.keep
+git -C /repo apply "$P" || exit 2
 for id in "$@"; do python3 run/check.py $id --tier quick 2>&1 | grep -E "VIOLATION|KNOWN|^C[0-9]+:" ; done
 git -C /repo checkout -- .
+mkdir -p work/mutant && cp evidence/*.json work/mutant/ 2>/dev/null
+rm -rf evidence && mv work/evidence.keep evidence
